@@ -104,6 +104,10 @@ def run_episode(args):
                 v = w.connect(**a[1])
             elif a[0] == "act":
                 v = w.act(a[1], a[2])
+            elif a[0] == "half_open":
+                v = w.half_open(a[1], a[2])
+            elif a[0] == "half_complete":
+                v = w.half_complete(a[1], a[2])
             else:
                 v = w.end_client(a[1], a[2])
             res["steps"] += 1
